@@ -11,6 +11,7 @@ from liquid2 import Expression
 from liquid2 import RenderContext
 from liquid2.builtin import Filter
 from liquid2.builtin import KeywordArgument
+from liquid2.builtin import Null
 from liquid2.builtin import PositionalArgument
 from liquid2.builtin import StringLiteral
 from liquid2.exceptions import TranslationKeyError
@@ -195,7 +196,8 @@ class Translate(BaseTranslateFilter, TranslatableFilter):
         plural: Expression | None = None
         for arg in _filter.args:
             if isinstance(arg, KeywordArgument) and arg.name == "plural":
-                plural = arg.value
+                # `plural: nil` is the same as no plural at all.
+                plural = None if isinstance(arg.value, Null) else arg.value
 
         # Translate our filters into standard *gettext argument specs.
 
